@@ -1,10 +1,36 @@
-"""C02 - responses follow the Via chain: pop one entry, go to the next."""
-from proxyfam import run_focus
+"""C02 - responses follow the Via chain: pop one entry, go to the next (single iteration: MC_Proxy/Trace_Proxy; histories: ReturnPath.tla)."""
+import os
+import re
+from vlib import Infra
+from proxyfam import run_focus, report, crash_or_infra
 LEVEL = "model_checking"
 
 
 def run(ctx, args):
+    q = ctx.quick
+    # the history part of the quantifier: concurrent transactions through backends, any interleaving (closed loop)
+    ctx.model_check("ReturnPath", "MC_ReturnPath_TRUE.cfg")
+    ctx.model_check("ReturnPath", "MC_ReturnPath_FALSE.cfg")
+    beh = os.path.join(ctx.scratch, "loop_behaviours.ndjson")
+    ctx.emit("MC_ReturnPath", "MC_ReturnPathSim.cfg", beh, simulate="num=%d" % (300 if q else 5000), depth=16, workers=1)
+    trace = os.path.join(ctx.scratch, "loop_trace.ndjson")
+    rc, out = ctx.run_driver("TestVfLoop", env={"VERIF_IN": beh, "VERIF_TRACE": trace, "VERIF_MAXBEH": 300 if q else 5000}, timeout=1500, allow_fail=True)
+    if rc != 0:
+        crash_or_infra(ctx, "C02", out)
+        return
+    m = re.search(r"VF cases=(\d+) events=(\d+)", out)
+    if not m:
+        raise Infra("loop driver printed no summary:\n" + out[-2000:])
+    loops = int(m.group(1))
+    lfails, r = ctx.validate("Trace_ReturnPath", "Trace_ReturnPath.cfg", trace)
+    for f in lfails:
+        f["trace"] = trace
+    ctx.extra["closed_loop_histories"] = loops
+    if lfails:
+        report(ctx, "C02", lfails, classfn=lambda f: f["what"])
     run_focus(ctx, "C02", [("MC_ProxyC02.cfg", 1, 1)], reach=("Reach_RespRelay", "Reach_RespDrop"),
               driver_env={"VERIF_REPS": 3 if ctx.quick else 8},
               rule="responses with 1-4 Via entries in every mix of comma-separated and repeated lines, entry shapes {port +/-, received, received+rport, rport alone, valueless rport}, "
-                   "transports UDP/TCP/TLS/SCTP, status 100-603, compact/odd-case names")
+                   "transports UDP/TCP/TLS/SCTP, status 100-603, compact/odd-case names; plus closed-loop histories (ReturnPath.tla: 3 concurrent transactions, shapes of source / sent-by / rport / "
+                   "spoofed received / deeper Via, provisional and final responses in TLC-generated interleavings, received-support on and off)")
+    ctx.traces += loops
